@@ -587,3 +587,37 @@ wf_lemma!(spec_apply_preserves_wf_promotion, 1);
 wf_lemma!(spec_apply_preserves_wf_enpassant, 2);
 wf_lemma!(spec_apply_preserves_wf_castling_short, 3);
 wf_lemma!(spec_apply_preserves_wf_castling_long, 4);
+
+/// push / pop with a state stack of ANY length 2..=511 (removes the "depth instantiated at 2" assumption
+/// for the stack discipline): push appends exactly one entry above an unchanged stack, pop removes it,
+/// and the arrayvec capacity assertion holds for every such length.
+fn stack_discipline_contract(kind: u8) {
+    let mut g = mk::sym_game_anylen(false);
+    let m = sym_move(kind);
+    let v = adapt::view_of(&g);
+    nd::assume(v.ep <= 8);
+    nd::assume(wf6(&v));
+    nd::assume(generated_shape(&v, &m));
+    nd::assume(-SCORE_BOUND <= g.score && g.score <= SCORE_BOUND);
+    let t = touched(&m);
+    nd::assume(cache_ok_at(&g, t[0], false) && cache_ok_at(&g, t[1], false) && cache_ok_at(&g, t[2], false) && cache_ok_at(&g, t[3], false));
+    let len0 = g.state.len();
+    let i = nd::u16() as usize;
+    nd::assume(i < len0);
+    let before = super::gamestate::verif_gamestate::bits(g.state[i]);
+    g.push(m);
+    assert!(g.state.len() == len0 + 1, "push did not add exactly one state entry");
+    assert!(super::gamestate::verif_gamestate::bits(g.state[i]) == before, "push changed an earlier state entry");
+    g.pop(m);
+    assert!(g.state.len() == len0, "C03: take-back did not restore the game length");
+    assert!(super::gamestate::verif_gamestate::bits(g.state[i]) == before, "C03: take-back changed an earlier state entry");
+    vcover!(len0 == 511 && i == 0, "full-but-one stack reachable");
+}
+macro_rules! stack_harness { ($n:ident, $k:expr) => {
+    #[cfg_attr(kani, kani::proof)] #[cfg_attr(verif_replay, test)]
+    pub fn $n() { stack_discipline_contract($k) } } }
+stack_harness!(stack_discipline_normal, 0);
+stack_harness!(stack_discipline_promotion, 1);
+stack_harness!(stack_discipline_enpassant, 2);
+stack_harness!(stack_discipline_castling_short, 3);
+stack_harness!(stack_discipline_castling_long, 4);
